@@ -200,6 +200,11 @@ def main(pid, run):
         print("MACHINERY-FAILURE property=%s: %s" % (pid, e))
         rc = 2
     except Exception as e:
+        from .servers import Livelock
+        if isinstance(e, Livelock):
+            ctx.violation({"phase": "driving the applications"}, "application calls return", str(e), "the library does not return: " + str(e)[:160])
+            sys.stdout.flush()
+            return ctx.finish()
         tb = traceback.extract_tb(e.__traceback__)
         lib = os.path.realpath(os.path.join(REPO, "baize")) + os.sep
         if tb and os.path.realpath(tb[-1].filename).startswith(lib):
